@@ -34,8 +34,21 @@ CP = "morphing/concrete_provider"
 def run(repo: Repo, tier: str, res: CheckResult, seed: int = 0) -> None:
     scalar_agreement(repo, res)
     paired_providers(repo, res)
+    dropped_results(repo, res)
+    timestamp_zone_agreement(repo, res)
     from .. import genprog
     genprog.c01_checks(repo, tier, res, seed)
+    # two more places where loader and dumper of one model must agree (audits shared with C03, reported here as round-trip
+    # clauses): the dumper writes None for a None value, so the loader may decide "absent" only by a missing key; omit_default
+    # drops a field only when it equals the default the loader restores
+    sub = CheckResult("C01")
+    genprog.c03_loader_checks(repo, tier, sub, seed, prop="C01")
+    genprog.c03_dumper_checks(repo, tier, sub, seed, prop="C01")
+    res.evaluated("roundtrip:absence-and-omission", True)
+    known_rt = {"TV.absence-decision": "ROUNDTRIP.present-value-read-as-absent", "TV.sieve": "ROUNDTRIP.omitted-value-not-the-default"}
+    for f in sub.findings:
+        if f.rule in known_rt:
+            res.add(Finding("C01", known_rt[f.rule], f.file, f.qualname, f.construct, f.message, f.line))
     res.assumptions = list(ASSUMPTIONS)
 
 
@@ -165,3 +178,56 @@ def scalar_agreement(repo: Repo, res: CheckResult) -> None:
     if rets == ["timedelta.total_seconds"] and "float" not in {norm(e) for e in getattr(ok, "elts", [])}:
         res.add(Finding("C01", "REPR.dumper-output-not-accepted", m.rel, "SecondsTimedeltaProvider", f"_OK_TYPES = {norm(ok)}",
                         "the timedelta dumper emits a float (total_seconds) that the loader's accepted types do not contain", ok.lineno))
+
+
+def dropped_results(repo: Repo, res: CheckResult) -> None:
+    """Container codecs apply the element loader / dumper they were given to every key, value and item. A result that is
+    computed (`dumped_key = key_dumper(k)`) but never used means the raw element went into the output instead: the dumper
+    emits what the loader of the same provider does not take back (dict[date, int] dumped with date keys), or the loader
+    keeps raw data."""
+    n = 0
+    for mname in ("morphing/dict_provider", "morphing/iterable_provider", "morphing/constant_length_tuple_provider",
+                  "morphing/generic_provider"):
+        m = repo.mod(mname)
+        for fn in [f for f in ast.walk(m.tree) if isinstance(f, ast.FunctionDef) and m.enclosing_function(f) is not None]:
+            for st in ast.walk(fn):
+                if not (isinstance(st, ast.Assign) and len(st.targets) == 1 and isinstance(st.targets[0], ast.Name)
+                        and isinstance(st.value, ast.Call) and isinstance(st.value.func, ast.Name)
+                        and st.value.func.id.endswith(("loader", "dumper")) and m.enclosing_function(st) is fn):
+                    continue
+                var = st.targets[0].id
+                n += 1
+                res.evaluated(f"dropped-result:{m.rel}:{m.qualname(fn)}:{var}", True)
+                used = any(isinstance(x, ast.Name) and x.id == var and isinstance(x.ctx, ast.Load) for x in ast.walk(fn))
+                if not used:
+                    res.add(Finding("C01", "REPR.computed-representation-dropped", m.rel, m.qualname(fn), norm(st)[:100],
+                                    f"`{norm(st)[:80]}`: the result of the element {'dumper' if 'dumper' in st.value.func.id else 'loader'} is "
+                                    "never used, the raw element is what ends up in the result: this variant of the codec emits / keeps a "
+                                    "representation its counterpart does not accept (keys of dict[date, int] stay date objects)", st.lineno))
+    res.count("REPR.element-results", n, 8)
+
+
+def timestamp_zone_agreement(repo: Repo, res: CheckResult) -> None:
+    """A timestamp codec whose dumper fixes the time zone (the date dumper takes the midnight in UTC) must read the timestamp
+    back in the same zone: `date.fromtimestamp` / `datetime.fromtimestamp(x)` without tz use the LOCAL zone, so west of
+    Greenwich load(dump(d)) is the previous day."""
+    m = repo.mod(CP)
+    n = 0
+    for ci in m.classes.values():
+        ld = repo.find_method(ci, "_make_loader")
+        dm = repo.find_method(ci, "_make_dumper")
+        if ld is None or dm is None or "Timestamp" not in ci.name:
+            continue
+        n += 1
+        res.evaluated(f"timestamp-zone:{ci.name}", True)
+        dumper_fixes_zone = any(norm(x).endswith("timezone.utc") or norm(x) == "utc" for x in ast.walk(dm[1]) if isinstance(x, (ast.Attribute, ast.Name)))
+        if not dumper_fixes_zone:
+            continue
+        for c in ast.walk(ld[1]):
+            if isinstance(c, ast.Call) and isinstance(c.func, ast.Attribute) and c.func.attr in ("fromtimestamp", "utcfromtimestamp"):
+                has_tz = len(c.args) >= 2 or any(k.arg == "tz" for k in c.keywords) or c.func.attr == "utcfromtimestamp"
+                if not has_tz:
+                    res.add(Finding("C01", "REPR.timestamp-zone-asymmetry", m.rel, f"{ci.name}._make_loader", norm(c)[:80],
+                                    f"the dumper of {ci.name} takes the timestamp in UTC but `{norm(c)[:60]}` reads it in the local time zone: "
+                                    "with a negative UTC offset load(dump(d)) is the day before d", c.lineno))
+    res.count("REPR.timestamp-providers", n, 2)
